@@ -58,7 +58,17 @@ def cases(rng, tier):
             kt = z * rng.range(2, 9) + rng.range(1, z - 1)
             f = kt * t - rng.below(t)
             nsub = 1
-        m = C.Case("enc_packets", [f, t, z, nsub, al, rng.range(1, 4)] + CG.rand_data(rng, f))
+        m = C.Case("enc_packets", [f, t, z, nsub, al, rng.range(1, 4)] + (CG.structured_data(rng, f, t, z) if i % 4 == 1 or (i % 4 == 2 and z > 1) else CG.rand_data(rng, f)))
+        m.tag = "object"
+        cs.append(m)
+    # multi-block objects whose blocks all have the same size AND the same bytes (zero-filled / periodic objects)
+    for _ in range(6 if tier == "quick" else 40):
+        t = rng.choice([1, 2, 4, 8])
+        z = rng.range(2, 5)
+        kb = rng.range(2, 12)
+        f = z * kb * t
+        blk = rng.choice([[0] * (kb * t), list(rng.bytes(kb * t))])
+        m = C.Case("enc_packets", [f, t, z, 1, 1, rng.range(1, 3)] + blk * z)
         m.tag = "object"
         cs.append(m)
     # a per-object request for more repair packets than a block may have SOURCE symbols (56403 bounds K, not K + n)
